@@ -698,6 +698,8 @@ def c18_params(max_rounds=4):
         wrap=st.sampled_from(["bare", "list", "tuple", "dict"]),
         end=st.sampled_from(["creator_close", "peer_close", "creator_drop", "peer_drop", "both_drop"]),
         extra_b_threads=st.integers(0, 2),
+        cb_on_closer=st.booleans(),   # the side that closes the channel has a callback registered on it
+        b_main_callback=st.booleans(),  # the B body registers a callback on its exec channel before it returns
     ))
     return st.lists(rnd, min_size=1, max_size=max_rounds)
 
@@ -713,11 +715,12 @@ def c18_conversation(conv, rounds):
         tok_p = {"l": ["tok", conv, r, "from-peer"]}
         creator_ops = [["newchannel", name], ["send_chan", "main", name, p["wrap"]], ["send", name, tok_c], ["recv", name, 1]]
         peer_ops = [["recv_chan", "main", name], ["recv", name, 1], ["send", name, tok_p]]
+        cbk = lambda side: [["setcallback", name, f"{side}:{conv}:cb{r}", True]] if p.get("cb_on_closer") else []  # noqa: E731
         if p["end"] == "creator_close":
-            creator_ops += [["close", name]]
+            creator_ops += cbk(p["creator"]) + [["close", name]]
             peer_ops += [["recv_until", name, 0], ["drop", name]]
         elif p["end"] == "peer_close":
-            peer_ops += [["close", name]]
+            peer_ops += cbk("b" if p["creator"] == "a" else "a") + [["close", name]]
             creator_ops += [["recv_until", name, 0], ["drop", name]]
         elif p["end"] == "creator_drop":
             creator_ops += [["drop", name]]
@@ -739,8 +742,12 @@ def c18_conversation(conv, rounds):
         else:
             b_ops += extra + creator_ops + joins
             a_ops += peer_ops
+        closer = {"creator_close": p["creator"], "peer_close": "b" if p["creator"] == "a" else "a"}.get(p["end"])
         expect.append(dict(conv=conv, r=r, name=name, creator=p["creator"], tok_c=fp_of(tok_c), tok_p=fp_of(tok_p),
-                           end=p["end"]))
+                           end=p["end"], cbkey=f"{closer}:{conv}:cb{r}" if (closer and p.get("cb_on_closer")) else None,
+                           closer=closer))
+    if any(p.get("b_main_callback") for p in rounds):
+        b_ops += [["setcallback", "main", f"b:{conv}:cbmain", True]]
     a_ops = [["remote_exec", "main", b_ops]] + a_ops + [["waitclose", "main"]]
     return a_ops, expect
 
@@ -783,6 +790,12 @@ def check_c18(result, expects, clause="ids"):
         if ["item", ex["tok_p"]] not in clog:
             raise Violation(f"{clause}.not-connected", f"{where}: the creator did not receive the peer's token: "
                             f"{[e for e in clog if e[0] in ('item', 'eof', 'timeout')][:6]}")
+    for ex in expects:
+        if ex.get("cbkey"):
+            log = (result[ex["closer"]] or {}).get(ex["cbkey"], None)
+            if log != [["endmarker"]]:
+                raise Violation(f"{clause}.local-close-endmarker", f"conv {ex['conv']} round {ex['r']}: the closing side had a "
+                                f"callback with endmarker registered; on its own close() the callback saw {log}")
     # transferred channels keep their id
     for conv in {ex["conv"] for ex in expects}:
         for creator, peer in (("a", "b"), ("b", "a")):
